@@ -360,3 +360,165 @@ Proof.
     + cbn [b64encode]. repeat constructor; try (apply b64_char_ok; lia). exact F.
     + exists (S k). cbn [b64encode length]. rewrite Hk. lia.
 Qed.
+
+(* ---------------- canonical decimal strings ---------------- *)
+Lemma is_digits_spec : forall l, is_digits l = true -> l <> [] /\ Forall (fun c => is_digit c = true) l.
+Proof.
+  intros l H. unfold is_digits in H. destruct l as [|c r]; [discriminate|]. split; [discriminate|].
+  apply Forall_forall. intros x Hx. rewrite forallb_forall in H. apply H. exact Hx.
+Qed.
+
+Lemma is_digits_intro : forall l, l <> [] -> Forall (fun c => is_digit c = true) l -> is_digits l = true.
+Proof.
+  intros l Hne H. unfold is_digits. destruct l as [|c r]; [contradiction|].
+  apply forallb_forall. intros x Hx. rewrite Forall_forall in H. apply H. exact Hx.
+Qed.
+
+Lemma is_digits_dec_Z : forall z, (0 <= z)%Z -> is_digits (dec_Z z) = true.
+Proof.
+  intros z Hz. unfold dec_Z. destruct (z <? 0)%Z eqn:E; [apply Z.ltb_lt in E; lia|].
+  destruct (dec_N_spec (Z.to_N z)) as [H1 [H2 _]]. apply is_digits_intro; assumption.
+Qed.
+
+Lemma digits_to_N_acc : forall l acc,
+    digits_to_N acc l = acc * 10 ^ N.of_nat (length l) + digits_to_N 0 l.
+Proof.
+  induction l as [|c l IH]; intros acc; cbn [digits_to_N length].
+  - cbn. lia.
+  - rewrite IH, (IH (10 * 0 + (c - 48))). rewrite Nat2N.inj_succ, N.pow_succ_r'. ring.
+Qed.
+
+Lemma digits_to_N_app0 : forall a b acc, digits_to_N acc (a ++ b) = digits_to_N (digits_to_N acc a) b.
+Proof. induction a as [|c a IH]; intros b acc; cbn [app digits_to_N]; [reflexivity|apply IH]. Qed.
+
+Lemma digits_to_N_app_gen : forall a b,
+    digits_to_N 0 (a ++ b) = digits_to_N 0 a * 10 ^ N.of_nat (length b) + digits_to_N 0 b.
+Proof. intros a b. rewrite digits_to_N_app0. apply digits_to_N_acc. Qed.
+
+Lemma pow10_pos : forall n, 1 <= 10 ^ n.
+Proof. intros n. assert (10 ^ n <> 0) by (apply N.pow_nonzero; lia). lia. Qed.
+
+Lemma digits_bound : forall l, Forall (fun c => is_digit c = true) l ->
+    digits_to_N 0 l < 10 ^ N.of_nat (length l).
+Proof.
+  intros l H. induction H as [|c l Hc Hl IH]; [cbn; lia|].
+  apply is_digit_spec in Hc. cbn [digits_to_N length]. rewrite digits_to_N_acc.
+  rewrite Nat2N.inj_succ, N.pow_succ_r'.
+  set (P := 10 ^ N.of_nat (length l)) in *. nia.
+Qed.
+
+Lemma digits_head_pos : forall c l, is_digit c = true -> c <> 48 ->
+    1 <= digits_to_N 0 (c :: l).
+Proof.
+  intros c l Hc Hne. apply is_digit_spec in Hc. cbn [digits_to_N]. rewrite digits_to_N_acc.
+  pose proof (pow10_pos (N.of_nat (length l))) as HP.
+  set (P := 10 ^ N.of_nat (length l)) in *. nia.
+Qed.
+
+Lemma div10_bound : forall f n, 10 <= n -> n < 10 ^ N.of_nat (S f) ->
+    n / 10 < 10 ^ N.of_nat f /\ (0 < f)%nat.
+Proof.
+  intros f n Hn Hlt.
+  assert (Hq : n / 10 < 10 ^ N.of_nat f).
+  { apply N.div_lt_upper_bound; [lia|]. rewrite Nat2N.inj_succ, N.pow_succ_r' in Hlt. exact Hlt. }
+  split; [exact Hq|]. destruct f; [|lia]. cbn in Hq.
+  assert (1 <= n / 10) by (apply N.div_le_lower_bound; lia). lia.
+Qed.
+
+Lemma dec_fuel_indep : forall f f' n,
+    n < 10 ^ N.of_nat f -> n < 10 ^ N.of_nat f' -> (0 < f)%nat -> (0 < f')%nat ->
+    dec_fuel f n = dec_fuel f' n.
+Proof.
+  induction f as [|f IH]; intros f' n H H' Hf Hf'; [lia|]. destruct f' as [|f']; [lia|].
+  cbn [dec_fuel]. destruct (n <? 10) eqn:E; [reflexivity|]. apply N.ltb_ge in E.
+  destruct (div10_bound f n E H) as [A B]. destruct (div10_bound f' n E H') as [A' B'].
+  f_equal. apply IH; assumption.
+Qed.
+
+Definition canonical (p : bytes) : Prop :=
+  Forall (fun c => is_digit c = true) p /\ exists c r, p = c :: r /\ c <> 48.
+
+Lemma dec_N_canonical : forall n, 0 < n -> canonical (dec_N n).
+Proof. intros n Hn. destruct (dec_N_spec n) as [H1 [_ [_ H4]]]. split; [exact H1|auto]. Qed.
+
+Lemma dec_N_canon : forall p, canonical p -> dec_N (digits_to_N 0 p) = p.
+Proof.
+  induction p as [|d q IH] using rev_ind; intros [Hd [c [r [Hp Hc]]]]; [discriminate|].
+  apply Forall_app in Hd as [Hq Hd1]. pose proof (Forall_inv Hd1) as Hdd. cbv beta in Hdd.
+  apply is_digit_spec in Hdd. rewrite digits_to_N_app_gen. cbn [length digits_to_N].
+  change (10 ^ N.of_nat 1) with 10.
+  destruct q as [|c' q'].
+  - cbn [digits_to_N]. unfold dec_N. cbn [dec_fuel].
+    destruct (0 * 10 + (10 * 0 + (d - 48)) <? 10) eqn:E; [|apply N.ltb_ge in E; lia].
+    cbn [app]. f_equal. lia.
+  - cbn [app] in Hp. injection Hp as Hc' Hr. subst c'.
+    assert (Hcan : canonical (c :: q')) by (split; [exact Hq|eauto]).
+    specialize (IH Hcan).
+    assert (Hpos : 1 <= digits_to_N 0 (c :: q')) by (apply digits_head_pos; [exact (Forall_inv Hq)|exact Hc]).
+    set (Q := digits_to_N 0 (c :: q')) in *.
+    set (n := Q * 10 + (10 * 0 + (d - 48))).
+    assert (Hn10 : 10 <= n) by (unfold n; lia).
+    assert (Hdiv : n / 10 = Q) by (unfold n; lia).
+    assert (Hmod : n mod 10 = d - 48) by (unfold n; lia).
+    unfold dec_N. cbn [dec_fuel].
+    destruct (n <? 10) eqn:E; [apply N.ltb_lt in E; lia|].
+    rewrite Hdiv, Hmod.
+    destruct (div10_bound _ n Hn10 (dec_N_fuel_ok n)) as [A B]. rewrite Hdiv in A.
+    rewrite (dec_fuel_indep _ (S (N.to_nat (N.log2 Q))) Q A (dec_N_fuel_ok Q) B ltac:(lia)).
+    fold (dec_N Q). rewrite IH. f_equal. f_equal. lia.
+Qed.
+
+Lemma py_int_digits : forall p, is_digits p = true -> py_int p = Some (Z.of_N (digits_to_N 0 p)).
+Proof.
+  intros p H. apply is_digits_spec in H as [Hne H1].
+  unfold py_int. rewrite strip_id.
+  2:{ eapply Forall_impl; [|exact H1]. apply is_digit_not_space. }
+  destruct p as [|c r]; [contradiction|].
+  pose proof (Forall_inv H1) as Hc. cbv beta in Hc. apply is_digit_spec in Hc.
+  destruct (c =? 45) eqn:E1; [apply N.eqb_eq in E1; lia|].
+  destruct (c =? 43) eqn:E2; [apply N.eqb_eq in E2; lia|].
+  rewrite digits_val_digits; [reflexivity|exact H1|left; discriminate].
+Qed.
+
+(* the timestamp field accepted by format 1: digits only, no leading zero = canonical *)
+Lemma accepted_ts_canonical : forall p t,
+    is_digits p = true -> starts_with_zero p = false -> py_int p = Some t ->
+    canonical p /\ p = dec_Z t /\ (1 <= t)%Z /\ t = Z.of_N (digits_to_N 0 p).
+Proof.
+  intros p t Hd Hz Hi. rewrite (py_int_digits p Hd) in Hi. inversion Hi as [Ht]. clear Hi. subst t.
+  destruct (is_digits_spec p Hd) as [Hne H1]. destruct p as [|c r]; [contradiction|].
+  cbn [starts_with_zero] in Hz. apply N.eqb_neq in Hz.
+  assert (Hcan : canonical (c :: r)) by (split; [exact H1|eauto]).
+  pose proof (digits_head_pos c r (Forall_inv H1) Hz) as Hpos.
+  split; [exact Hcan|]. split; [|split; [lia|reflexivity]].
+  unfold dec_Z. destruct (Z.of_N (digits_to_N 0 (c :: r)) <? 0)%Z eqn:E; [apply Z.ltb_lt in E; lia|].
+  rewrite N2Z.id. symmetry. apply dec_N_canon. exact Hcan.
+Qed.
+
+(* re-splitting  payload ++ timestamp  at another point, both timestamp fields canonical:
+   either nothing moved, or the timestamp more than doubled, or more than halved *)
+Lemma resplit_cases : forall p0 p1 b ts,
+    canonical p1 -> canonical ts -> p0 ++ p1 = b ++ ts ->
+    (p0 = b /\ p1 = ts) \/ 2 * digits_to_N 0 ts < digits_to_N 0 p1 \/ 2 * digits_to_N 0 p1 < digits_to_N 0 ts.
+Proof.
+  intros p0 p1 b ts [H1 [c1 [r1 [E1 N1]]]] [Hs [cs [rs [Es Ns]]]] H.
+  apply app_eq_app in H as [l [[Ha Hb]|[Ha Hb]]].
+  - (* ts = l ++ p1 *)
+    destruct l as [|c l'].
+    + left. rewrite app_nil_r in Ha. cbn [app] in Hb. auto.
+    + right. right. rewrite Hb. rewrite digits_to_N_app_gen.
+      rewrite Hb in Es. cbn [app] in Es. injection Es as Ec _. subst c.
+      rewrite Hb in Hs. apply Forall_app in Hs as [Hl _].
+      pose proof (digits_head_pos cs l' (Forall_inv Hl) Ns) as Hpos.
+      pose proof (digits_bound p1 H1) as Hb1.
+      set (P := 10 ^ N.of_nat (length p1)) in *. nia.
+  - (* p1 = l ++ ts *)
+    destruct l as [|c l'].
+    + left. rewrite app_nil_r in Ha. cbn [app] in Hb. auto.
+    + right. left. rewrite Hb. rewrite digits_to_N_app_gen.
+      rewrite Hb in E1. cbn [app] in E1. injection E1 as Ec _. subst c.
+      rewrite Hb in H1. apply Forall_app in H1 as [Hl _].
+      pose proof (digits_head_pos c1 l' (Forall_inv Hl) N1) as Hpos.
+      pose proof (digits_bound ts Hs) as Hbs.
+      set (P := 10 ^ N.of_nat (length ts)) in *. nia.
+Qed.
